@@ -41,6 +41,20 @@ def run(ctx):
         r = ctx.mc('mc/MC_Kingdon.tla', cfg, what)
         if not r['ok']:
             ctx.report(f"Kingdon.tla ({what}) violates {r['violated']}", {'kind': 'spec', 'violated': ','.join(r['violated'])}, {'cfg': cfg})
+    # TapeModel: the transcribed TapeRecorder against Sem(program), every program of the bounded grammar x key patterns;
+    # controls: the constants of the pinned (pre-repair) code must be refuted
+    dump = os.path.join(ctx.work, 'tape.dump')
+    r = ctx.mc('mc/MC_Tape.tla', 'mc/MC_Tape_quick.cfg' if q else 'mc/MC_Tape_fixed.cfg',
+               'TapeModel: TapeFaithful for every program of the bounded grammar (depth 1' + ('' if q else ' and 2') + ') x signatures x key patterns',
+               extra_args=('-dump', dump))
+    if not r['ok']:
+        ctx.report(f"TapeModel violates {r['violated']}", {'kind': 'spec', 'violated': ','.join(r['violated'])}, {'tail': r['out'][-2000:]})
+    for cfg, what in (('mc/MC_Tape_old_pow.cfg', 'control: x ** -n ignoring the sign (pinned code) must be refuted'),
+                      ('mc/MC_Tape_old_coef.cfg', 'control: coefficient access keyed by the blade (pinned code) must be refuted')):
+        rc = ctx.mc('mc/MC_Tape.tla', cfg, what)
+        if not rc['violated']:
+            from tlc import MachineryError
+            raise MachineryError(f'control run {cfg} did not find the known counterexample')
     jobs, sessions = [], {}
     sdir = os.path.join(ctx.work, 'sessions')
     os.makedirs(sdir, exist_ok=True)
@@ -62,6 +76,40 @@ def run(ctx):
             pats = [P.random_key_tuple(rng, d, 3, 1) for _ in range(2)]
             hist = [{'t': 'T1', 'kind': 'prog', 'op': n, 'args': [p], 'params': [], 'mode': 'num'} for p in pats for n in ('g2', 'g3', 'g4', 'g2', 'g3')]
             add(ucfg(sig=[1, 1]), {'wrapper': wrap}, progs, hist, tags={'samename': True, 'wrapper': wrap})
+    # spec -> code: the cases TLC enumerated for TapeModel (state dump) are replayed into the real register()
+    import tlaparse
+    names2 = {0: 'e', 1: 'e1', 2: 'e2', 3: 'e12'}
+
+    def conv(t):
+        if t['n'] == 'arg':
+            return ('arg', t['i'])
+        if t['n'] == 'num':
+            num = t['v'][0]
+            k = num.get((), 0) if isinstance(num, dict) else 0
+            return ('num', int(k))
+        if t['n'] == 'coef':
+            return ('coef', [conv(t['c'][0])], [names2[t['p'][0]]], 'method')
+        return (t['n'], [conv(x) for x in t['c']], list(t['p']), 'infix' if t['n'] in PR.INFIX or t['n'] in ('neg', 'reverse', 'pow') else 'method')
+    cases = [st['st'] for st in tlaparse.parse_dump(dump) if st['st'].get('phase') == 'case'] if os.path.exists(dump) else []
+    ctx.extra['tape_model_cases_from_tlc_dump'] = len(cases)
+    if len(cases) > (400 if q else 4000):
+        cases = rng.sample(cases, 400 if q else 4000)
+    bysig = {}
+    for cs in cases:
+        bysig.setdefault(tuple(cs['sig']), []).append(cs)
+    for sig, lst in bysig.items():
+        for i in range(0, len(lst), 12):
+            progs, hist = {}, []
+            for j, cs in enumerate(lst[i:i + 12]):
+                try:
+                    t = conv(cs['tree'])
+                except (KeyError, TypeError, AttributeError):
+                    continue
+                nm = f'm{j}'
+                progs[nm] = {'tree': t, 'nargs': 2, 'symbolic': False, 'pyname': nm}
+                hist.append({'t': 'T1', 'kind': 'prog', 'op': nm, 'args': [tuple(k) for k in cs['keys']], 'params': [], 'mode': 'num'})
+            if progs:
+                add(ucfg(sig=list(sig)), {'wrapper': rng.random() < 0.3}, progs, hist)
     cfgs = [(2, ucfg(sig=[1, 1])), (2, ucfg(sig=[0, 1])), (3, ucfg(sig=[1, 1, -1])), (3, named_ucfg('2DPGA'))]
     if not q:
         cfgs += [(3, ucfg(sig=[0, 1, 1])), (2, ucfg(sig=[1, -1], start=0)), (4, ucfg(sig=[1, 1, 1, -1])), (4, named_ucfg('3DPGA'))]
